@@ -841,7 +841,10 @@ impl Runtime {
         let old_start = u16::try_from(self.stack.pop()?)?;
         let new_start = u16::try_from(self.stack.pop()?)?;
         self.listing.renum(new_start, old_start, step)?;
-
+        self.dirty = true;
+        self.cont = State::Stopped;
+        self.stack.clear();
+        self.functions.clear();
         self.state = State::Stopped;
         Ok(self.r#end())
     }
